@@ -331,7 +331,7 @@ def _check_escape_parse(ctx, led, v, rule="C04.escape"):
             n_sites += 1
             ck = "%s.parse_vector::%s" % (info["cls"], short(n))
             good = any(
-                any(x in ("ValueError", "Exception", "*") for x in G.handler_names(h)) for t in tries for h in t.handlers
+                any(x in ("ValueError", "Exception", "*") for x in G.handler_names(h, module)) for t in tries for h in t.handlers
             )
             if n.func.id in ("D", "Decimal") and n.args and isinstance(n.args[0], ast.Constant):
                 good = True
